@@ -14,18 +14,32 @@ CONSTANTS CFGS,      \* configurations one of which is chosen by Init
           MAXTX,     \* txs per block
           MAXOPS,    \* events per behaviour
           MAXRESTART,\* restarts per behaviour
+          UPDENDS,   \* EndBlock values a params update may set on a feeder
+          MAXUPD,    \* params updates per behaviour
           SECONDBAD, \* TRUE: the second message of a two-message tx always carries a stale base block (lead L7 probes)
           FAILBUDGET \* rejected txs per behaviour (>= MAXOPS: unlimited)
 
-VARIABLES S, T, G, hist, last, nfail, nrestart, ntx
-vars == <<S, T, G, hist, last, nfail, nrestart, ntx>>
+VARIABLES S, T, G, hist, last, nfail, nrestart, ntx, bp, nupd
+\* bp: <<price of token t1 at the last BeginBlock on S, on T>> (x/operator turns it into voting power at an epoch end)
+vars == <<S, T, G, hist, last, nfail, nrestart, ntx, bp, nupd>>
+
+\* latest stored price of the staking asset's token (t1); 1 if there is none
+LatestT1(X) == LET l == X.prices["t1"].list IN IF l = <<>> \/ ~l[Len(l)].p.some THEN 1 ELSE l[Len(l)].p.v
+\* validator updates x/dogfood emits in EndBlock(h): at the end of a dogfood epoch (every c.ep blocks) x/operator
+\* recomputes every validator's power as (staked amount = genesis power) * (price of t1 at BeginBlock);
+\* updates are emitted only if something changed.  (Prediction used for generation; traces log the real ones.)
+PredictVU(X, price) ==
+  IF X.c.ep = 0 \/ X.h = 1 \/ (X.h - 1) % X.c.ep # 0 THEN <<>>
+  ELSE LET new == [v \in DOMAIN X.c.pw |-> X.c.pw[v] * price] IN IF new = X.pw THEN <<>> ELSE new
 
 Init ==
   /\ \E c \in CFGS : S = InitState(c) /\ hist = <<[ev |-> "Init", a |-> [cfg |-> c]]>>
   /\ T = S
   /\ G = [subs |-> {}]
-  /\ last = [ev |-> "Init", okS |-> TRUE, okT |-> TRUE, fin |-> {}, carryOK |-> TRUE]
+  /\ last = [ev |-> "Init", okS |-> TRUE, okT |-> TRUE, fin |-> {}, carryOK |-> TRUE, halt |-> FALSE]
+  /\ nupd = 0
   /\ nfail = 0 /\ nrestart = 0 /\ ntx = 0
+  /\ bp = <<LatestT1(S), LatestT1(S)>>
 
 \* prices recorded by a step: <<token, round id, price option>> of every new list entry
 NewEntries(pre, post) ==
@@ -34,7 +48,7 @@ NewEntries(pre, post) ==
 FeedersOfTok(c, t) == {f \in FEEDERS : c.fd[f].tok = t}
 
 DoTx(msgs) ==
-  /\ Len(hist) < MAXOPS /\ ntx < MAXTX /\ S.h <= MAXH
+  /\ Len(hist) < MAXOPS /\ ntx < MAXTX /\ S.h <= MAXH /\ ~last.halt
   /\ LET rs == DeliverTx(S, msgs)
          rt == IF T = S THEN rs ELSE DeliverTx(T, msgs)
          g2 == IF rs.err = "" THEN [G EXCEPT !.subs = AddSubs(@, S.c, S.h, msgs)] ELSE G
@@ -49,8 +63,8 @@ DoTx(msgs) ==
         /\ last' = [ev |-> "Tx", okS |-> rs.err = "", okT |-> rt.err = "",
                     fin |-> UNION {{[f |-> f, k |-> RoundIdx(S.c, f, S.h), p |-> e[3]] :
                                       f \in {x \in FeedersOfTok(S.c, e[1]) : \E i \in DOMAIN msgs : msgs[i].f = x}} : e \in NewEntries(S, rs.st)},
-                    carryOK |-> TRUE]
-        /\ ntx' = ntx + 1 /\ UNCHANGED nrestart
+                    carryOK |-> TRUE, halt |-> FALSE]
+        /\ ntx' = ntx + 1 /\ UNCHANGED <<nrestart, bp, nupd>>
 
 CarryOK(pre, post) ==
   \A t \in TOKENS :
@@ -63,19 +77,33 @@ CarryOK(pre, post) ==
 RestartChoices == IF S.c.rs = {0} THEN BOOLEAN ELSE {S.h \in S.c.rs}
 
 DoEnd(restart) ==
-  /\ Len(hist) < MAXOPS /\ S.h <= MAXH
+  /\ Len(hist) < MAXOPS /\ S.h <= MAXH /\ ~last.halt
   /\ restart => nrestart < MAXRESTART
   /\ restart \in RestartChoices
-  /\ LET rs == Apply(S, "EndBlock", [restart |-> restart])
-         rt == IF T = S /\ ~restart THEN rs ELSE Apply(T, "EndBlock", [restart |-> FALSE])
-     IN /\ S' = rs.st /\ T' = rt.st
+  /\ LET rs == Apply(S, "EndBlock", [restart |-> restart, vu |-> PredictVU(S, bp[1])])
+         rt == IF T = S /\ ~restart /\ bp[1] = bp[2] THEN rs ELSE Apply(T, "EndBlock", [restart |-> FALSE, vu |-> PredictVU(T, bp[2])])
+         halted == rs.err = "PANIC" \/ rt.err = "PANIC"     \* BeginBlock of the restarted node panics: the node is down
+     IN /\ S' = rs.st /\ T' = rt.st /\ bp' = <<LatestT1(rs.st), LatestT1(rt.st)>>
         /\ hist' = Append(hist, [ev |-> "EndBlock", a |-> [restart |-> restart],
-                                  n |-> (IF NewEntries(S, rs.st) # {} THEN {"carry"} ELSE {}) \cup
+                                  n |-> (IF NewEntries(S, rs.st) # {} THEN {"carry"} ELSE {}) \cup (IF rs.st.pw # S.pw THEN {"vu"} ELSE {}) \cup
                                         (IF restart /\ Mem(rs.st) # Mem(rt.st) THEN {"memdiff"} ELSE {}) \cup
                                         (IF Stored(rs.st) # Stored(rt.st) THEN {"div"} ELSE {})])
-        /\ last' = [ev |-> "EndBlock", okS |-> TRUE, okT |-> TRUE, fin |-> {}, carryOK |-> CarryOK(S, rs.st)]
+        /\ last' = [ev |-> "EndBlock", okS |-> TRUE, okT |-> TRUE, fin |-> {}, carryOK |-> halted \/ CarryOK(S, rs.st), halt |-> halted]
   /\ nrestart' = IF restart THEN nrestart + 1 ELSE nrestart
-  /\ ntx' = 0 /\ UNCHANGED <<G, nfail>>
+  /\ ntx' = 0 /\ UNCHANGED <<G, nfail, nupd>>
+
+\* MsgUpdateParams (governance): set the EndBlock of a feeder
+DoUpd(f, e) ==
+  /\ Len(hist) < MAXOPS /\ S.h <= MAXH /\ ~last.halt /\ nupd < MAXUPD
+  /\ S.kfd[f].start < 1000000      \* not for a feeder that is switched off in this configuration
+  /\ LET rs == Apply(S, "Upd", [f |-> f, end |-> e])
+         rt == IF T = S THEN rs ELSE Apply(T, "Upd", [f |-> f, end |-> e])
+     IN /\ (rs.err = "" \/ nfail < FAILBUDGET)
+        /\ nfail' = IF rs.err # "" /\ FAILBUDGET < MAXOPS THEN nfail + 1 ELSE nfail
+        /\ S' = rs.st /\ T' = rt.st
+        /\ hist' = Append(hist, [ev |-> "Upd", a |-> [f |-> f, end |-> e], n |-> IF rs.err = "" THEN {"upd"} ELSE {}])
+        /\ last' = [ev |-> "Upd", okS |-> rs.err = "", okT |-> rt.err = "", fin |-> {}, carryOK |-> TRUE, halt |-> FALSE]
+  /\ nupd' = nupd + 1 /\ UNCHANGED <<G, nrestart, ntx, bp>>
 
 \* message alphabet, relative to the state of S
 Bases(f) == (IF f \in DOMAIN S.rounds THEN {S.rounds[f].base} ELSE {0}) \cup
@@ -99,10 +127,11 @@ Next ==
   \/ \E ms \in OneMsgs : DoTx(ms)
   \/ \E ms \in TwoMsgs : DoTx(ms)
   \/ \E r \in BOOLEAN : DoEnd(r)
+  \/ \E f \in FEEDERS, e \in UPDENDS : DoUpd(f, e)
 
 Spec == Init /\ [][Next]_vars
 
-View == <<S, T, G, last, nfail, nrestart, ntx>>
+View == <<S, T, G, last, nfail, nrestart, ntx, bp, nupd>>
 
 \* ----- invariants: C12 on the node S -----
 HH == S.h - 1
@@ -118,7 +147,9 @@ InvFinal       == \A x \in last.fin : x.p.some /\ Supermajority(S.c, G.subs, x.f
 InvCarry       == last.carryOK
 \* ----- C14: the restarted node shows what the continuous one shows -----
 InvRestartEq   == Stored(S) = Stored(T) /\ last.okS = last.okT
+\* ----- C11: no block phase panics (a restarted node must come up) -----
+InvNoHalt      == ~last.halt
 
 \* behaviour generation: print the history once it reaches the depth bound
-EmitAtDepth == (Len(hist) < MAXOPS /\ S.h <= MAXH) \/ PrintT("BEHAVIOUR " \o ToJson(hist))
+EmitAtDepth == (Len(hist) < MAXOPS /\ S.h <= MAXH /\ ~last.halt) \/ PrintT("BEHAVIOUR " \o ToJson(hist))
 =============================================================================
